@@ -498,8 +498,21 @@ def _hist_json(arg):
 core.register('hist_json', _hist_json)
 
 
-def gen_plan(family, seed, msgs, tier='quick'):
+def gen_plan(family, seed, msgs, tier='quick', index=None):
     rng = random.Random(seed)
+    if family == 'c08-each':
+        # every program of the pool at least once: compile, execute cached, encode, save/load, execute
+        m = msgs[(index if index is not None else rng.randrange(len(msgs))) % len(msgs)]
+        cm = rng.choice([1, 2, 8])
+        ops = [{'op': 'decode', 'c': 0, 'm': 0, 'wire': True, 'ive': False},
+               {'op': 'decode', 'c': 0, 'm': 0, 'wire': True, 'ive': False},
+               {'op': 'encode', 'c': 0, 'm': 0},
+               {'op': 'save_compiled', 'c': 0}, {'op': 'restart', 'c': 0}, {'op': 'load_compiled', 'c': 0},
+               {'op': 'decode', 'c': 0, 'm': 0, 'wire': True, 'ive': False},
+               {'op': 'encode', 'c': 0, 'm': 0},
+               {'op': 'render', 'h': 6, 'fmt': rng.choice(FORMATS)}]
+        return {'engine': 'histsim', 'family': 'c08', 'sub': 'each', 'seed': seed, 'limit': 50,
+                'clients': [{'compiled': cm, 'root': 'bundled'}], 'msgs': [dict(m)], 'ops': ops}
     io_family = family == 'c13-io'
     c08 = family == 'c08'
     nclients = rng.randint(2, 4)
@@ -760,6 +773,8 @@ def specs_needed(plan, tr):
 
 # ----------------------------------------------------------------------------
 def shape(plan, tr=None):
+    if plan.get('sub') == 'each':
+        return ('c08-each', plan['msgs'][0]['ref'], plan['clients'][0]['compiled'])
     return (plan['family'], plan['limit'], tuple(c['compiled'] for c in plan['clients']),
             tuple(o['op'][:4] for o in plan['ops']))
 
